@@ -207,25 +207,26 @@ Qed.
 Ltac trivial_step Hafter Ot :=
   eexists; split; [reflexivity|split; [exact Hafter|split; [exact Ot|exact I]]].
 
-(** a cancel-orders step, through process ([isproc]) or action *)
-Lemma cancel_step : forall (isproc : bool) s v f g cl ob out,
-  state_wf s = true -> Rel s v ->
-  let s0 := clear_state s in
-  let st := mkStep (if isproc then OpProcess (EvCommand (CCancelOrders f)) else OpAction (CCancelOrders f)) g cl ob in
-  let s1 := if isproc then fst (process (cs_of cl) s0 (EvCommand (CCancelOrders f)) g) else fst (action (cs_of cl) s0 (CCancelOrders f)) in
-  obs_insts (cv_insts v) (ob_insts ob) = insts s1 ->
-  ob_trading ob = trading s1 ->
+Lemma prev_ok_insts : forall a b p, insts a = insts b -> prev_ok a p -> prev_ok b p.
+Proof. intros a b [[f sent0]|] H Hp; [|exact I]. cbn in *. rewrite <- H. exact Hp. Qed.
+
+(** a cancel-orders step, whatever the public entry point: [sb] is the state the action runs on *)
+Lemma cancel_step : forall s v st sb s1 f out,
+  Rel s v -> state_wf sb = true -> insts sb = insts s ->
+  the_command (cv_trading v) st = Some (CCancelOrders f) ->
+  obs_insts (cv_insts v) (ob_insts (st_obs st)) = insts s1 ->
+  ob_trading (st_obs st) = trading s1 ->
   the_report st = Some (AOCancel out) ->
   sendout_eqb true creq_eqb
-    (mkSendOut (spec_sent cr_ex (links s0) (cancel_requests f (insts s0)))
-               (spec_errs cr_ex (links s0) (cancel_requests f (insts s0)))) out = true ->
+    (mkSendOut (spec_sent cr_ex (links sb) (cancel_requests f (insts sb)))
+               (spec_errs cr_ex (links sb) (cancel_requests f (insts sb)))) out = true ->
+  (maybe_generation v st = false ->
+   insts s1 = insts (fst (action (cs_of (st_close st)) sb (CCancelOrders f)))) ->
   exists v', oracle_step v st = (true, v') /\ Rel s1 v'.
 Proof.
-  intros isproc s v f g cl ob out Hwf (Ri & Rt & Rp) s0 st s1 Hafter Ot Hrep Hout.
+  intros s v st sb s1 f out (Ri & Rt & Rp) Hwf Hib Hcmd Hafter Ot Hrep Hout Hgen.
   destruct (cancel_scope_ok _ _ _ _ Hout) as (Hscope & Hin & Hopen).
-  assert (Hcmd : the_command st = Some (CCancelOrders f)) by (subst st; destruct isproc; reflexivity).
-  unfold oracle_step. rewrite Hcmd, Hrep. cbn [st_obs st].
-  change (st_obs st) with ob. rewrite Hafter, Ri. change (insts s) with (insts s0). rewrite Hscope. cbn [andb].
+  unfold oracle_step. rewrite Hcmd, Hrep. rewrite Hafter, Ri, <- Hib. rewrite Hscope. cbn [andb].
   assert (Hrepeat :
     match cv_prev v with
     | Some (f0, sent0) => if filter_eqb f0 f then forallb (fun r => negb (existsb (creq_eqb r) sent0)) (reqs_of out) else true
@@ -233,43 +234,36 @@ Proof.
     end = true).
   { destruct (cv_prev v) as [[f0 sent0]|] eqn:Ep; [|reflexivity].
     destruct (filter_eqb f0 f) eqn:Ef; [|reflexivity].
-    eapply (cancel_repeat_ok s0); [exact Rp|exact Ef|exact Hin]. }
+    eapply (cancel_repeat_ok sb); [eapply prev_ok_insts; [symmetry; exact Hib|exact Rp]|exact Ef|exact Hin]. }
   rewrite Hrepeat, andb_true_r.
   destruct (maybe_generation v st) eqn:Emg.
   - cbn [orb]. eexists. split; [reflexivity|]. split; [reflexivity|]. split; [exact Ot|exact I].
-  - assert (insts s1 = insts (fst (action (cs_of cl) s0 (CCancelOrders f)))) as Hs1.
-    { subst s1. apply (command_insts isproc). intros ->.
-      eapply (maybe_generation_false v g cl ob (EvCommand (CCancelOrders f)) s0); [exact Rt|exact Emg]. }
-    cbn [orb]. rewrite (cancel_frame_ok (cs_of cl) s0 f (insts s1) Hwf Hs1).
+  - specialize (Hgen eq_refl).
+    cbn [orb]. rewrite (cancel_frame_ok (cs_of (st_close st)) sb f (insts s1) Hwf Hgen).
     eexists. split; [reflexivity|]. split; [reflexivity|]. split; [exact Ot|].
-    cbn [cv_prev prev_ok]. exists (cs_of cl), s0. split; [exact Hwf|]. split; [exact Hs1|exact Hopen].
+    cbn [cv_prev prev_ok]. exists (cs_of (st_close st)), sb. split; [exact Hwf|]. split; [exact Hgen|exact Hopen].
 Qed.
 
-(** a close-positions step with the default strategy *)
-Lemma close_step : forall (isproc : bool) s v f g strat base ob,
-  state_wf s = true -> Rel s v ->
-  let cl := CloseDefault strat base in
-  let s0 := clear_state s in
-  let st := mkStep (if isproc then OpProcess (EvCommand (CClosePositions f)) else OpAction (CClosePositions f)) g cl ob in
-  let s1 := if isproc then fst (process (cs_of cl) s0 (EvCommand (CClosePositions f)) g) else fst (action (cs_of cl) s0 (CClosePositions f)) in
-  obs_insts (cv_insts v) (ob_insts ob) = insts s1 ->
-  ob_trading ob = trading s1 ->
-  the_report st = Some (snd (action (cs_of cl) s0 (CClosePositions f))) ->
+(** a close-positions step with the default strategy, whatever the public entry point *)
+Lemma close_step : forall s v st sb s1 f strat base,
+  Rel s v -> state_wf sb = true -> insts sb = insts s ->
+  st_close st = CloseDefault strat base ->
+  the_command (cv_trading v) st = Some (CClosePositions f) ->
+  obs_insts (cv_insts v) (ob_insts (st_obs st)) = insts s1 ->
+  ob_trading (st_obs st) = trading s1 ->
+  the_report st = Some (snd (action (default_close strat (fun i => base + i)) sb (CClosePositions f))) ->
+  (maybe_generation v st = false ->
+   insts s1 = insts (fst (action (default_close strat (fun i => base + i)) sb (CClosePositions f)))) ->
   exists v', oracle_step v st = (true, v') /\ Rel s1 v'.
 Proof.
-  intros isproc s v f g strat base ob Hwf (Ri & Rt & Rp) cl s0 st s1 Hafter Ot Hrep.
-  subst cl.
-  assert (Hcmd : the_command st = Some (CClosePositions f)) by (subst st; destruct isproc; reflexivity).
-  unfold oracle_step. rewrite Hcmd, Hrep. cbn [st_close st]. change (st_obs st) with ob.
-  change (cs_of (CloseDefault strat base)) with (default_close strat (fun i => base + i)) in *.
-  rewrite close_positions_output. rewrite Hafter, Ri. change (insts s) with (insts s0).
+  intros s v st sb s1 f strat base (Ri & Rt & Rp) Hwf Hib Hcl Hcmd Hafter Ot Hrep Hgen.
+  unfold oracle_step. rewrite Hcmd, Hrep, Hcl.
+  rewrite close_positions_output. rewrite Hafter, Ri, <- Hib.
   rewrite close_scope_ok. cbn [reqs_of so_sent so_errs map app andb].
   destruct (maybe_generation v st) eqn:Emg.
   - cbn [orb]. eexists. split; [reflexivity|]. split; [reflexivity|]. split; [exact Ot|exact I].
-  - assert (insts s1 = insts (fst (action (default_close strat (fun i => base + i)) s0 (CClosePositions f)))) as Hs1.
-    { subst s1. apply (command_insts isproc). intros ->.
-      eapply (maybe_generation_false v g (CloseDefault strat base) ob (EvCommand (CClosePositions f)) s0); [exact Rt|exact Emg]. }
-    cbn [orb]. rewrite (close_frame_ok strat (fun i => base + i) s0 f (insts s1) Hwf Hs1).
+  - specialize (Hgen eq_refl).
+    cbn [orb]. rewrite (close_frame_ok strat (fun i => base + i) sb f (insts s1) Hwf Hgen).
     eexists. split; [reflexivity|]. split; [reflexivity|]. split; [exact Ot|exact I].
 Qed.
 
@@ -284,38 +278,74 @@ Proof.
   apply obs_matches_parts in Hm. destruct Hm as (Ot & Oi & Ores).
   assert (Hafter : obs_insts (cv_insts v) (ob_insts ob) = insts (fst (model_step s0 (mkStep o g cl ob)))).
   { destruct HR as (Ri & _). rewrite Oi, Ri. apply obs_insts_id. exact Hstat. }
+  assert (Rt : cv_trading v = trading s0) by (destruct HR as (_ & Rt & _); exact Rt).
   unfold model_step in *. cbn [st_op st_g st_close] in *.
-  destruct o as [ev| |c|e stt].
+  destruct o as [ev| |c|e stt|h c].
   - (* process *)
     rewrite (surjective_pairing (process (cs_of cl) s0 ev g)) in *. cbn [fst snd] in *.
     destruct ev as [|c| | | | | | | | | |]; try (unfold oracle_step; cbn [the_command st_op]; trivial_step Hafter Ot).
     destruct c as [rs|rs|f|f]; try (unfold oracle_step; cbn [the_command st_op]; trivial_step Hafter Ot).
     + (* close positions *)
       destruct cl as [strat base|cs os]; [|unfold oracle_step; cbn [the_command st_op st_close]; trivial_step Hafter Ot].
-      apply (close_step true s v f g strat base ob Hwf HR Hafter Ot).
-      cbn [hash_ordered] in Ores. apply res_eqb_exact in Ores. unfold the_report. cbn [st_obs]. rewrite Ores. cbn [res_of].
-      destruct (proj1 (process_command_parts (cs_of (CloseDefault strat base)) s0 (CClosePositions f) g)) as [tl Htl].
-      fold s0. rewrite Htl. reflexivity.
+      eapply (close_step s v) with (sb := s0) (strat := strat) (base := base) (f := f);
+        [exact HR|exact Hwf|reflexivity|reflexivity|reflexivity|exact Hafter|exact Ot| |].
+      * cbn [hash_ordered] in Ores. apply res_eqb_exact in Ores. unfold the_report. cbn [st_obs]. rewrite Ores. cbn [res_of].
+        destruct (proj1 (process_command_parts (cs_of (CloseDefault strat base)) s0 (CClosePositions f) g)) as [tl Htl].
+        rewrite Htl. reflexivity.
+      * intros Emg. apply (proj2 (process_command_parts (cs_of (CloseDefault strat base)) s0 (CClosePositions f) g)).
+        eapply maybe_generation_false; [exact Rt|exact Emg].
     + (* cancel orders *)
       cbn [hash_ordered] in Ores.
       destruct (proj1 (process_command_parts (cs_of cl) s0 (CCancelOrders f) g)) as [tl Htl].
       rewrite cancel_orders_output in Htl.
       destruct (report_audit_cancel _ _ _ _ Htl Ores) as (bu & out & tl' & Er & Eo & Hout).
-      apply (cancel_step true s v f g cl ob out Hwf HR Hafter Ot); [|exact Hout].
-      unfold the_report. cbn [st_obs]. rewrite Er, Eo. reflexivity.
+      eapply (cancel_step s v) with (sb := s0) (f := f) (out := out);
+        [exact HR|exact Hwf|reflexivity|reflexivity|exact Hafter|exact Ot| |exact Hout|].
+      * unfold the_report. cbn [st_obs]. rewrite Er, Eo. reflexivity.
+      * intros Emg. apply (proj2 (process_command_parts (cs_of cl) s0 (CCancelOrders f) g)).
+        eapply maybe_generation_false; [exact Rt|exact Emg].
   - unfold oracle_step; cbn [the_command st_op]. rewrite (surjective_pairing (generate s0 g)) in *. cbn [fst] in *.
     trivial_step Hafter Ot.
   - (* direct action *)
     rewrite (surjective_pairing (action (cs_of cl) s0 c)) in *. cbn [fst snd] in *.
     destruct c as [rs|rs|f|f]; try (unfold oracle_step; cbn [the_command st_op]; trivial_step Hafter Ot).
     + destruct cl as [strat base|cs os]; [|unfold oracle_step; cbn [the_command st_op st_close]; trivial_step Hafter Ot].
-      apply (close_step false s v f g strat base ob Hwf HR Hafter Ot).
-      cbn [hash_ordered] in Ores. apply res_eqb_exact in Ores. unfold the_report. cbn [st_obs]. rewrite Ores. reflexivity.
+      eapply (close_step s v) with (sb := s0) (strat := strat) (base := base) (f := f);
+        [exact HR|exact Hwf|reflexivity|reflexivity|reflexivity|exact Hafter|exact Ot| |].
+      * cbn [hash_ordered] in Ores. apply res_eqb_exact in Ores. unfold the_report. cbn [st_obs]. rewrite Ores. reflexivity.
+      * intros _. reflexivity.
     + cbn [hash_ordered] in Ores. rewrite cancel_orders_output in Ores.
       destruct (report_action_cancel _ _ Ores) as (out & Er & Hout).
-      apply (cancel_step false s v f g cl ob out Hwf HR Hafter Ot); [|exact Hout].
-      unfold the_report. cbn [st_obs]. rewrite Er. reflexivity.
+      eapply (cancel_step s v) with (sb := s0) (f := f) (out := out);
+        [exact HR|exact Hwf|reflexivity|reflexivity|exact Hafter|exact Ot| |exact Hout|].
+      * unfold the_report. cbn [st_obs]. rewrite Er. reflexivity.
+      * intros _. reflexivity.
   - unfold oracle_step; cbn [the_command st_op]. cbn [fst] in *. trivial_step Hafter Ot.
+  - (* strategy hook calling the trait method *)
+    destruct (hook_fires h (trading s0)) eqn:Hf.
+    + rewrite (surjective_pairing (action (cs_of cl) (hook_state h s0) c)) in *. cbn [fst snd] in *.
+      assert (Hwfb : state_wf (hook_state h s0) = true) by (destruct h; exact Hwf).
+      assert (Hib : insts (hook_state h s0) = insts s) by (destruct h; reflexivity).
+      assert (Hcmd : forall c', c' = c -> the_command (cv_trading v) (mkStep (OpHook h c) g cl ob) = Some c')
+        by (intros c' ->; unfold the_command; cbn [st_op]; rewrite Rt, Hf; reflexivity).
+      destruct c as [rs|rs|f|f];
+        try (unfold oracle_step; rewrite (Hcmd _ eq_refl); trivial_step Hafter Ot).
+      * destruct cl as [strat base|cs os];
+          [|unfold oracle_step; rewrite (Hcmd _ eq_refl); cbn [st_close]; trivial_step Hafter Ot].
+        eapply (close_step s v) with (sb := hook_state h s0) (strat := strat) (base := base) (f := f);
+          [exact HR|exact Hwfb|exact Hib|reflexivity|exact (Hcmd _ eq_refl)|exact Hafter|exact Ot| |].
+        -- cbn [hash_ordered] in Ores. apply res_eqb_exact in Ores. unfold the_report. cbn [st_obs]. rewrite Ores. reflexivity.
+        -- intros _. reflexivity.
+      * cbn [hash_ordered] in Ores. rewrite cancel_orders_output in Ores.
+        destruct (report_action_cancel _ _ Ores) as (out & Er & Hout).
+        eapply (cancel_step s v) with (sb := hook_state h s0) (f := f) (out := out);
+          [exact HR|exact Hwfb|exact Hib|exact (Hcmd _ eq_refl)|exact Hafter|exact Ot| |exact Hout|].
+        -- unfold the_report. cbn [st_obs]. rewrite Er. reflexivity.
+        -- intros _. reflexivity.
+    + cbn [fst snd] in *. unfold oracle_step.
+      assert (the_command (cv_trading v) (mkStep (OpHook h c) g cl ob) = None) as Hn
+        by (unfold the_command; cbn [st_op]; rewrite Rt, Hf; reflexivity).
+      rewrite Hn. trivial_step Hafter Ot.
 Qed.
 
 Lemma sound_run19 : forall steps s v,
